@@ -20,8 +20,15 @@ class ReverterException(Exception):
 
 
 class Reverter(object):
-    def __init__(self, obj, visited_objects=None, relations=[]):
+    def __init__(self, obj, visited_objects=None, relations=[],
+                 reverted_parents=None):
         self.visited_objects = visited_objects or []
+        # parent object of each reverted version object (by id): an entity
+        # re-created within this revert call is not reachable through
+        # version_parent before the session is flushed
+        self.reverted_parents = (
+            reverted_parents if reverted_parents is not None else {}
+        )
         self.obj = obj
         self.version_parent = self.obj.version_parent
         self.parent_class = parent_class(self.obj.__class__)
@@ -98,7 +105,8 @@ class Reverter(object):
         return self.__class__(
             child,
             visited_objects=self.visited_objects,
-            relations=subpaths(self.relations, prop.key)
+            relations=subpaths(self.relations, prop.key),
+            reverted_parents=self.reverted_parents
         )()
 
     def revert_relationships(self):
@@ -120,6 +128,13 @@ class Reverter(object):
         ('tags.article') must not revert it once more to whatever version
         the path happens to end at.
         """
+        return self.visited_version() is not None
+
+    def visited_version(self):
+        """
+        Return the version object of the same parent object that has been
+        reverted within this revert call, None if there is none.
+        """
         mapper = sa.inspect(self.obj.__class__)
         tx_column = option(self.obj, 'transaction_column_name')
         keys = [
@@ -129,7 +144,7 @@ class Reverter(object):
         ]
         for visited in self.visited_objects:
             if visited is self.obj:
-                return True
+                return visited
             if (
                 (
                     isinstance(visited, self.obj.__class__) or
@@ -140,15 +155,15 @@ class Reverter(object):
                     for key in keys
                 )
             ):
-                return True
-        return False
+                return visited
+        return None
 
     def __call__(self):
-        if self.is_visited():
-            return (
-                None if self.operation_type == Operation.DELETE
-                else self.version_parent
-            )
+        visited = self.visited_version()
+        if visited is not None:
+            if self.operation_type == Operation.DELETE:
+                return None
+            return self.reverted_parents.get(id(visited), self.version_parent)
 
         if self.operation_type == Operation.DELETE:
             # Nothing to do if the parent object is already gone
@@ -161,6 +176,7 @@ class Reverter(object):
         # Check if parent object has been deleted
         if self.version_parent is None:
             self.version_parent = parent_class(self.obj.__class__)()
+        self.reverted_parents[id(self.obj)] = self.version_parent
 
         # Before reifying relations we need to reify object properties. This
         # is needed because reifying relations might need to flush the session
